@@ -430,6 +430,7 @@ func (pool *hostConnPool) fill() {
 
 	// switch from read to write lock
 	pool.mu.RUnlock()
+	vEvent(1701, 0, 0) // verif trace point: fill passed the first check, write lock not yet taken
 	pool.mu.Lock()
 
 	// double check everything since the lock was released
@@ -594,6 +595,7 @@ func (pool *hostConnPool) connect() (err error) {
 	}
 
 	// add the Conn to the pool
+	vEvent(1702, 0, 0) // verif trace point: connect holds a ready connection, pool lock not yet taken
 	pool.mu.Lock()
 	defer pool.mu.Unlock()
 
@@ -616,6 +618,7 @@ func (pool *hostConnPool) HandleError(conn *Conn, err error, closed bool) {
 
 	// TODO: track the number of errors per host and detect when a host is dead,
 	// then also have something which can detect when a host comes back.
+	defer vEvent(1703, 0, 0) // verif trace point: HandleError(closed) finished, pool lock released
 	pool.mu.Lock()
 	defer pool.mu.Unlock()
 
